@@ -16,10 +16,10 @@ DATE(y,m,d) == date literal); `is_formula` is true; no exception; reading twice 
 the text read from the live (unsaved) document, where it differs, must satisfy the same oracle.
 
 Bounds (mc.ref_formula.BOUNDS): quick = every tree with <= 2 internal nodes over the 23-kind alphabet
-+ every tree with 3 internal nodes over an 11-kind sub-alphabet + functions of arity <= 2 + arrays to
++ every tree with 3 internal nodes over an 11-kind sub-alphabet + functions of arity <= 4 + arrays to
 3x3; thorough = <= 3 internal nodes (group 'trees') and exactly 4 (group 'trees-deep', 3.06e6 trees,
 sharded by root kind x distribution of the remaining nodes) over the full alphabet + 4 internal nodes
-over the sub-alphabet + arity <= 4 + arrays to 4x4.
+over the sub-alphabet + arrays to 4x4.
 
 Failure identities: {mechanism, class, pattern}; mechanism is the stored node kind at the topmost
 difference ('bin:-', 'fn', 'arr', 'neg', 'str', ...), 'number-literal', 'grouping', 'unparsable-text',
